@@ -119,7 +119,7 @@ def check_compact(env, obj, hdr, hdr_bad, allow_i, pseg, sseg, resolve, signed_p
     want_msg = H + b"." + (pseg if signed_payload_octets is None else signed_payload_octets)
     want_sig = SIGV if sseg else b""
     c = cmp_[0]
-    mac = ice.Opaque("mac", HASHNAME[alg], key.raw_value, want_msg)
+    mac = ice.mac_tag(HASHNAME[alg], key.raw_value, want_msg)
     if not ((c["a"] == want_sig and c["b"] == mac) or (c["b"] == want_sig and c["a"] == mac)):
         return False
     if len(macs) != 1:
@@ -355,7 +355,7 @@ def check_json(env, n, hdrs, allow_i, resolve, prot, payload_seg=P):
         if not c["verdict"]:
             return False
         seg = (b"PROT%d" % i) if prot[i] else b""
-        mac = ice.Opaque("mac", HASHNAME[alg], key.raw_value, seg + b"." + payload_seg)
+        mac = ice.mac_tag(HASHNAME[alg], key.raw_value, seg + b"." + payload_seg)
         sig = b"sigv%d" % i
         if not ((c["a"] == sig and c["b"] == mac) or (c["b"] == sig and c["a"] == mac)):
             return False
